@@ -18,6 +18,7 @@ LEVEL_TEXT = (
     "subsystems recognise the same any-change name pattern"
     "; the set of entities a trigger subscribes to (watch= / expression names plus any-change names) and the values handed to trigger expressions (occurrence first, then last known, None for unknown names) equal the specified tables in both subsystems; in the legacy loop the decorator's kwargs extend and override the occurrence's arguments for every source kind"
     '; name sets with several names of one entity and method names of the state value are decided by the same table'
+    "; values handed to expressions are those of the event (never-notified names are snapshotted, attributes of the event's entity come from its value, function names are not shadowed); every entity a name mentions - also through NAME.old.attr - is subscribed and released"
 )
 LEVEL_NOTE = "truth of trigger expressions and values of .old are delegated to the interpreter (C01); ordering/no-loss under bursts is asyncio scheduling and not decided"
 TECHNIQUE = "abstract interpretation of the change predicates on a finite model vs a reference predicate; path-sensitive flow analysis of one loop iteration of both trigger loops (dispatch implies qualifying atoms); sibling agreement"
